@@ -81,7 +81,7 @@ Proof.
   rewrite skipn_app, Nat.sub_diag, skipn_all. cbn [skipn app andb].
   rewrite (batches_total _ _ B). fold all.
   rewrite firstn_length, Nat.eqb_refl. cbn [andb].
-  unfold all at 1. rewrite (replay_check_firstn _ _ room B). cbn [andb].
-  destruct (Nat.leb (length all) room) eqn:L; [reflexivity|].
+  pose proof (replay_check_firstn _ _ room B) as RC. fold all in RC.
+  destruct (Nat.leb (length all) room) eqn:L; rewrite RC; [reflexivity|]. cbn [andb].
   apply Nat.ltb_lt. apply Nat.leb_gt in L. exact L.
 Qed.
